@@ -113,14 +113,33 @@ impl TrainSpec {
     /// largest absolute weight of the model. `explicit`: with explicit ids and cost instead of `0,0,0`.
     pub fn add_weight_raising_user_row(&mut self, explicit: bool) {
         let Some(u) = self.user.as_mut() else { return };
-        let gold: Vec<&SeedRow> = self.corpus.iter().flatten().filter_map(|(sf, feat)| self.lex.iter().find(|r| r.surface == *sf && r.feature() == *feat)).collect();
-        if let (Some(a), Some(b)) = (gold.first(), gold.iter().find(|r| r.cells != gold[0].cells)) {
-            let n = a.cells.len().max(b.cells.len());
-            let cells: Vec<String> = (0..n)
-                .map(|i| if i % 2 == 0 { a.cells.get(i).or(b.cells.get(i)) } else { b.cells.get(i).or(a.cells.get(i)) }.cloned().unwrap_or_else(|| "*".into()))
-                .collect();
-            let (left, right, cost) = if explicit { (1, 1, 7) } else { (0, 0, 0) };
-            u.insert(0, UserRow { surface: "zq".into(), left, right, cost, cells });
+        let mut gold: Vec<&SeedRow> = vec![];
+        for (sf, feat) in self.corpus.iter().flatten() {
+            if let Some(r) = self.lex.iter().find(|r| r.surface == *sf && r.feature() == *feat) {
+                if !gold.iter().any(|g| g.cells == r.cells) {
+                    gold.push(r);
+                }
+            }
+        }
+        gold.truncate(3);
+        // with explicit parameters several mixes are added (any of them holding the largest weight will do);
+        // with 0,0,0 a single one (the histories of C15 load one row at a time)
+        let mut rows = vec![];
+        for (x, a) in gold.iter().enumerate() {
+            for (y, b) in gold.iter().enumerate() {
+                if x == y || (!explicit && !rows.is_empty()) {
+                    continue;
+                }
+                let n = a.cells.len().max(b.cells.len());
+                let cells: Vec<String> = (0..n)
+                    .map(|i| if i % 2 == 0 { a.cells.get(i).or(b.cells.get(i)) } else { b.cells.get(i).or(a.cells.get(i)) }.cloned().unwrap_or_else(|| "*".into()))
+                    .collect();
+                let (left, right, cost) = if explicit { (1, 1, 7) } else { (0, 0, 0) };
+                rows.push(UserRow { surface: format!("zq{}", rows.len()), left, right, cost, cells });
+            }
+        }
+        for (k, r) in rows.into_iter().enumerate() {
+            u.insert(k, r);
         }
     }
 
